@@ -39,6 +39,27 @@ def _alpha_dump(f: ast.AST) -> str:
     from sa.match import clone
 
     c = clone(f)
+
+    class _Count(ast.NodeTransformer):
+        """counting idioms in one spelling: `len([x for x in S if P])`, `len(list(<genexp>))`, `sum(1 for x in S if P)` -> __count__(<generators>)"""
+
+        def visit_Call(self, n: ast.Call):  # noqa: N802
+            self.generic_visit(n)
+            gens = None
+            if isinstance(n.func, ast.Name) and n.func.id == "len" and len(n.args) == 1 and not n.keywords:
+                a = n.args[0]
+                if isinstance(a, ast.Call) and isinstance(a.func, ast.Name) and a.func.id in ("list", "tuple") and len(a.args) == 1:
+                    a = a.args[0]
+                if isinstance(a, (ast.ListComp, ast.GeneratorExp)):
+                    gens = a.generators
+            elif isinstance(n.func, ast.Name) and n.func.id == "sum" and len(n.args) == 1 and not n.keywords and isinstance(n.args[0], (ast.GeneratorExp, ast.ListComp)) \
+                    and isinstance(n.args[0].elt, ast.Constant) and n.args[0].elt.value == 1:
+                gens = n.args[0].generators
+            if gens is not None:
+                return ast.copy_location(ast.Call(func=ast.Name(id="__count__", ctx=ast.Load()), args=[ast.GeneratorExp(elt=ast.Constant(value=1), generators=gens)], keywords=[]), n)
+            return n
+
+    c = _Count().visit(c)
     if c.args.args and c.args.args[0].arg in ("self", "cls"):  # type: ignore[attr-defined]
         c.args.args = c.args.args[1:]  # type: ignore[attr-defined]
     c.decorator_list = []  # type: ignore[attr-defined]
@@ -133,8 +154,24 @@ def grouping_of(repo: Repo, fn: Function) -> Grouping:
         m.qualname for m in (orig.cls.methods.values() if orig.cls else []))}
     toplevel = {f.name: f for q, f in mod.functions.items() if "." not in q}
     methods = dict(orig.cls.methods) if orig.cls else {}
-    for n in own_nodes(fn.node):
-        if isinstance(n, ast.Call) and dotted(n.func) == "max":
+    # `pick(<candidates>)` where `pick` - a function of the package or a static method of one of its classes, found by name - is
+    # `return max(<its parameter>, key=<score>)`: the choice written as a shared helper
+    max_calls = [n for n in own_nodes(fn.node) if isinstance(n, ast.Call) and dotted(n.func) == "max"]
+    if not max_calls:
+        for n in own_nodes(fn.node):
+            if not isinstance(n, ast.Call) or not n.args:
+                continue
+            nm = n.func.attr if isinstance(n.func, ast.Attribute) else n.func.id if isinstance(n.func, ast.Name) else None
+            if nm is None:
+                continue
+            cands_f = [f for f in repo.all_functions() if f.name == nm and "<locals>" not in f.qualname]
+            if len(cands_f) != 1:
+                continue
+            body_ = [s_ for s_ in cands_f[0].node.body if not (isinstance(s_, ast.Expr) and isinstance(s_.value, ast.Constant))]
+            if len(body_) == 1 and isinstance(body_[0], ast.Return) and isinstance(body_[0].value, ast.Call) and dotted(body_[0].value.func) == "max":
+                max_calls.append(body_[0].value)
+    for n in max_calls:
+        if True:
             for k in n.keywords:
                 target = None
                 if k.arg == "key" and isinstance(k.value, ast.Name):
@@ -152,6 +189,11 @@ def grouping_of(repo: Repo, fn: Function) -> Grouping:
                             target = cands_[0]
                 elif k.arg == "key" and isinstance(k.value, ast.Attribute) and isinstance(k.value.value, ast.Name) and k.value.attr in methods:
                     target = methods[k.value.attr]
+                elif k.arg == "key" and isinstance(k.value, ast.Attribute) and isinstance(k.value.value, ast.Name):
+                    # a static method of another class of the package (`key=NameSanitizer.tag_spelling_score`): the class is found by name
+                    owners = [m_.classes[k.value.value.id] for m_ in repo.modules.values() if k.value.value.id in m_.classes]
+                    if len(owners) == 1 and k.value.attr in owners[0].methods:
+                        target = owners[0].methods[k.value.attr]
                 if target is not None:
                     chooses = True
                     score = _alpha_dump(target.node)
